@@ -716,7 +716,11 @@ func (r *Run) RejectsAre(rule, fnRef string, min int, pats ...string) {
 		}
 		if !ok && ex.Ret != nil {
 			// the error of a single-use helper: all of the helper's own error returns must be of the class
-			for _, res := range ex.Ret.Results {
+			results := append([]ssa.Value{}, ex.Ret.Results...)
+			if ex.Val != nil {
+				results = append(results, ex.Val)
+			}
+			for _, res := range results {
 				var c *ssa.Call
 				switch x := res.(type) {
 				case *ssa.Call:
